@@ -291,10 +291,11 @@ func (vc *VC) refsBelowAxiom(h string, t types.Type, alloc string) string {
 
 func (vc *VC) mapRefsBelowAxiom(mv string, mt *types.Map, alloc string) string {
 	rs := vc.refTerms("(select (select "+mv+" m) k)", mt.Elem(), 0)
-	if len(rs) == 0 {
+	// map values satisfy their type's invariants too
+	cs := vc.wfFacts("(select (select "+mv+" m) k)", mt.Elem(), 0)
+	if len(rs) == 0 && len(cs) == 0 {
 		return ""
 	}
-	var cs []string
 	for _, r := range rs {
 		cs = append(cs, "(< "+r+" "+alloc+")")
 	}
